@@ -106,6 +106,13 @@ type Dict struct {
 	EncryptMetadata bool  // true if absent
 	CF              map[string]CryptFilter
 	StmF, StrF, EFF string // "" = absent = Identity (EFF: = StmF)
+
+	// OwnerKeyFirstN selects the de-facto reading of Algorithm 3 (c) /
+	// Algorithm 7 (a) for revisions 3-4 (see ownerKey).  It is not an entry
+	// of the dictionary: ParseDict leaves it false (the letter of the
+	// standard) and callers set it before OpenPrepared.  The readings only
+	// differ for keys shorter than 128 bits.
+	OwnerKeyFirstN bool
 }
 
 // ErrDict is wrapped by all errors about malformed Encrypt dictionaries.
@@ -432,12 +439,24 @@ func fileKeyLegacy(padded, o []byte, p uint32, id0 []byte, rev, n int, encryptMe
 
 // ownerKey is steps (a)-(d) of Algorithm 3: the RC4 key derived from the
 // owner password.
-func ownerKey(paddedOwner []byte, rev, n int) []byte {
+//
+// Step (c) reads "take the output from the previous MD5 hash and pass it as
+// input into a new MD5 hash", i.e. the whole 16-byte output, unlike
+// Algorithm 2 (h) ("the first n bytes").  That is what firstN == false does.
+// Acrobat and the deployed implementations (qpdf, PDFBox, MuPDF, ...) feed
+// only the first n bytes here as well (PDFBox documents that Acrobat cannot
+// open files made by the letter with the owner password when the key has 40
+// bits); firstN == true is that reading.  For n = 16 both coincide.
+func ownerKey(paddedOwner []byte, rev, n int, firstN bool) []byte {
 	s := md5.Sum(paddedOwner)
 	sum := s[:]
 	if rev >= 3 {
 		for i := 0; i < 50; i++ {
-			s := md5.Sum(sum) // the whole 16-byte output (unlike Algorithm 2 (h))
+			in := sum
+			if firstN {
+				in = sum[:n]
+			}
+			s := md5.Sum(in)
 			sum = s[:]
 		}
 	}
@@ -463,8 +482,8 @@ func xorKey(key []byte, x byte) []byte {
 }
 
 // computeO is Algorithm 3 (e)-(h).
-func computeO(paddedOwner, paddedUser []byte, rev, n int) []byte {
-	key := ownerKey(paddedOwner, rev, n)
+func computeO(paddedOwner, paddedUser []byte, rev, n int, firstN bool) []byte {
+	key := ownerKey(paddedOwner, rev, n, firstN)
 	out := rc4Apply(key, paddedUser)
 	if rev >= 3 {
 		for i := 1; i <= 19; i++ {
@@ -505,7 +524,7 @@ func (d *Dict) authUserLegacy(padded, id0 []byte) ([]byte, bool) {
 // recovered from /O with the owner password.
 func (d *Dict) userFromOwnerLegacy(paddedOwner []byte) []byte {
 	n, _ := d.keyBytes()
-	key := ownerKey(paddedOwner, d.R, n)
+	key := ownerKey(paddedOwner, d.R, n, d.OwnerKeyFirstN)
 	if d.R == 2 {
 		return rc4Apply(key, d.O[:32])
 	}
@@ -891,6 +910,10 @@ type Params struct {
 	PlaintextMetadata bool
 	// ID0 is the first element of the file identifier (R <= 4).
 	ID0 []byte
+	// OwnerKeyFirstN: compute /O with the de-facto reading of Algorithm 3
+	// (c) (see Dict.OwnerKeyFirstN); the returned Handler's Dict carries
+	// the same setting.
+	OwnerKeyFirstN bool
 	// Rand supplies salts, the R >= 5 file key, the 16 arbitrary bytes of
 	// /U (R 3-4), the 4 arbitrary bytes of /Perms, and later the AES IVs;
 	// nil = crypto/rand.
@@ -904,7 +927,7 @@ func New(p Params) (map[string]any, *Handler, error) {
 	if rd == nil {
 		rd = rand.Reader
 	}
-	d := &Dict{Filter: "Standard", R: p.R, V: p.V, P: int64(p.P), EncryptMetadata: true}
+	d := &Dict{Filter: "Standard", R: p.R, V: p.V, P: int64(p.P), EncryptMetadata: true, OwnerKeyFirstN: p.OwnerKeyFirstN}
 	bits := p.KeyBits
 	switch p.R {
 	case 2:
@@ -985,7 +1008,7 @@ func New(p Params) (map[string]any, *Handler, error) {
 			return nil, nil, err
 		}
 		n := bits / 8
-		d.O = computeO(owner, user, p.R, n)
+		d.O = computeO(owner, user, p.R, n, p.OwnerKeyFirstN)
 		h.Key = fileKeyLegacy(user, d.O, uint32(d.P), p.ID0, p.R, n, d.EncryptMetadata)
 		d.U = computeU(h.Key, p.ID0, p.R)
 		if p.R >= 3 {
